@@ -91,7 +91,8 @@ def run(ctx):
             ctx.count("R-C06-ROOTS")
         except (Unsupported, AnchorMissing) as e:
             ctx.violation("R-C06-UNSUPPORTED", b["def"], (b["span"]["file"], b["span"]["line"], b["def"]), str(e))
-    missing = check_visited(ctx, A, bodies, "R-C06")
+    api_roots = [b["def"] for b in bodies if b["def"] not in helpers and is_api_root(F, b)]
+    missing = check_visited(ctx, A, bodies, "R-C06", F, api_roots)
     for b in missing:
         if ctx.is_reviewed("R-C06-VISITED", b["def"]):
             continue
